@@ -278,6 +278,7 @@ class TcpConn:
                  cmac=CMAC, smac=SMAC, t0=1_700_000_000_000_000, dt=lambda rng: 1234, tcp_options=b""):
         self.cip, self.sip, self.cport, self.sport = wire.ipb(cip), wire.ipb(sip), cport, sport
         self.seq = {0: cisn, 1: sisn}
+        self.isn = {0: cisn, 1: sisn}          # sequence number of the first payload byte of each direction
         self.cmac, self.smac, self.t, self.dt, self.opts = cmac, smac, t0, dt, tcp_options
         self.pkts = []   # (ts_us, frame, dir, seq, payload)
 
@@ -294,6 +295,54 @@ class TcpConn:
             self.t += self.dt(rng)
             self.pkts.append((self.t, self.frame(d, self.seq[d], p), d, self.seq[d] & 0xFFFFFFFF, p))
             self.seq[d] += len(p)
+
+    def offset(self, k):
+        """stream offset of packet k's first payload byte in its direction"""
+        _, _, d, seq, _ = self.pkts[k]
+        return (seq - self.isn[d]) % 2 ** 32
+
+    def reschedule(self, rng, dup=0.15, disp=0.25, maxdist=3):
+        """TCP delivery effects inside a flight (a maximal run of consecutive same-direction segments): exact duplicate
+        segments (retransmissions captured twice) and segments displaced by a bounded distance. The first data
+        segment of each direction stays the first of its direction (a capture that starts mid-flight is C03's
+        business). Timestamps stay increasing in capture order."""
+        if not self.pkts:
+            return
+        times = [p[0] for p in self.pkts]
+        flights, cur = [], [0]
+        for k in range(1, len(self.pkts)):
+            if self.pkts[k][2] == self.pkts[k - 1][2]:
+                cur.append(k)
+            else:
+                flights.append(cur)
+                cur = [k]
+        flights.append(cur)
+        first_of_dir = {}
+        for k, p in enumerate(self.pkts):
+            first_of_dir.setdefault(p[2], k)
+        order = []
+        for fl in flights:
+            fl = list(fl)
+            movable = [k for k in fl if k not in first_of_dir.values()]
+            for _ in range(len(movable)):
+                if len(fl) >= 2 and rng.random() < disp:
+                    k = rng.choice(movable)
+                    i = fl.index(k)
+                    lo = 1 if fl[0] in first_of_dir.values() else 0
+                    j = max(lo, min(len(fl) - 1, i + rng.choice([-1, 1]) * rng.randrange(1, maxdist + 1)))
+                    fl.insert(j, fl.pop(i))
+            out = []
+            for k in fl:
+                out.append(k)
+                if rng.random() < dup:
+                    out.insert(rng.randrange(out.index(k) + 1, len(out) + 1), k)     # an exact duplicate, later in the flight
+            order += out
+        extra = len(order) - len(times)
+        t = times[-1]
+        for _ in range(extra):
+            t += rng.randrange(1, 5000)
+            times.append(t)
+        self.pkts = [(times[i],) + tuple(self.pkts[k][1:]) for i, k in enumerate(order)]
 
     def handshake_frames(self):
         """optional real TCP handshake (no payload; TLExport skips empty segments)"""
@@ -348,6 +397,8 @@ def build_capture(scripts_conns, rng, interleave=True):
         flights, truth = sc.render()
         for d, data in flights:
             conn.send(d, data, rng, cut)
+        if getattr(conn, "want_reschedule", False):
+            conn.reschedule(rng)
         per.append(list(conn.pkts))
         keylog += sc.keylog_lines()
         truths[i] = truth
